@@ -24,7 +24,7 @@ META = {
                 "packets) and every recorded cycle is validated by TLC against the specification.",
         "note": "Assumes rx_valid only inside rx_active, rx_active high at least one cycle before the first rx_valid, and an "
                 "inter-packet gap of at least the receiver's inter-packet delay (12 cycles FS@60MHz, 5 in the 12 MHz device). Strobe "
-                "latency is free within 3 cycles, ready_for_response within 24. Exhaustive only for the bounded model; "
+                "latency is free within 3 cycles, ready_for_response within 100. Exhaustive only for the bounded model; "
                 "real-gateware traces are sampled. Trusted base: TLC, amaranth.sim, the cycle driver.",
         "technique": "TLA+ observation-relation spec with CRC16 oracle, TLC exhaustive + batch trace validation of pysim traces",
         "design_ref": "DESIGN.md §5 C02",
@@ -159,7 +159,7 @@ def _device_static_inputs(dev, u):
 RX_OUT_BOOL = ("sv", "nx", "cp", "mm", "rfr")
 RX_IN_BOOL = ("active", "valid")
 # spec constants per DUT configuration: strobe window, rfr window, min inter-packet gap (cycles of rx_active low)
-RX_TRACE_CONSTS = {"StrobeWin": 3, "RfrWin": 24, "MinGap": 5}
+RX_TRACE_CONSTS = {"StrobeWin": 3, "RfrWin": 100, "MinGap": 5}     # RfrWin: the low-speed inter-packet delay is 80 cycles
 # minimum rx_active-low gap the stimuli keep per DUT configuration (the receiver ignores the bus while it waits
 # out its inter-packet delay: 10 cycles for FS at 60 MHz, 2 cycles in the 12 MHz FS-only device)
 RX_MIN_GAP = {"standalone": 12, "standalone-full": 12, "standalone-high": 12, "standalone-low": 82, "standalone-sig": 82,
@@ -337,7 +337,7 @@ def _rx_random_trace(rng, kind, npackets, long_ok=True):
             st.idle(2)
             st.tx_burst([rng.randrange(256) for _ in range(rng.choice([0, 1, 2, 5]))])
         st.gap(rng.choice([0, 0, 0, 1, 4, 30]))
-    st.idle(st.min_gap + 30)
+    st.idle(st.min_gap + 110)
     return st
 
 
@@ -360,7 +360,7 @@ def _rx_bitflip_traces(rng, kind, payloads, sample):
                 bad[k] ^= 1 << b
                 st.packet(bad, gap_prob=rng.choice([0, 0.3]), info={"what": "bitflip"})
                 st.gap()
-        st.idle(st.min_gap + 30)
+        st.idle(st.min_gap + 110)
         out.append(st)
     return out
 
@@ -384,7 +384,7 @@ def _rx_sweep_traces(rng, kind, quick, only=None):
             st.packet(H.data_bytes("DATA0", payload(2)), info={"what": "gap-after-sweep"})
             st.idle(mg + d)
             st.packet(H.data_bytes("DATA1", payload(d % 4)), tail=d % 2, info={"what": "gap-after-sweep"})
-            st.idle(mg + 20)
+            st.idle(mg + 105)
         st.idle(mg + 30)
         return [st]
     # (a) every subset of gap positions (gap of g cycles before byte k), alternating tail 0 / 1, good and corrupted CRC
@@ -401,7 +401,7 @@ def _rx_sweep_traces(rng, kind, quick, only=None):
                 st.packet(octets, gaps=[g if (mask >> k) & 1 else 0 for k in range(nb)], lead=1, tail=mask % 2,
                           info={"what": what})
                 st.gap()
-            st.idle(st.min_gap + 30)
+            st.idle(st.min_gap + 110)
             out.append(st)
     # (b) lead x tail
     st = RxStim(rng, mg + 1, device)
@@ -410,7 +410,7 @@ def _rx_sweep_traces(rng, kind, quick, only=None):
             for tail in (0, 1, 2, 3, 4):
                 st.packet(H.data_bytes(pids[(lead + tail) % 4], payload(n)), lead=lead, tail=tail, info={"what": "lead-tail-sweep"})
                 st.gap()
-    st.idle(st.min_gap + 30)
+    st.idle(st.min_gap + 110)
     out.append(st)
     # (c) inter-packet gap from the minimum upwards (ready_for_response / return-to-idle vs. the next packet)
     st = RxStim(rng, mg, device)
@@ -419,8 +419,8 @@ def _rx_sweep_traces(rng, kind, quick, only=None):
             st.packet(first, info={"what": "gap-after-sweep"})
             st.idle(mg + d)
             st.packet(H.data_bytes("DATA1", payload(d % 4)), tail=d % 2, info={"what": "gap-after-sweep"})
-            st.idle(mg + 20)
-    st.idle(st.min_gap + 30)
+            st.idle(mg + 105)
+    st.idle(st.min_gap + 110)
     out.append(st)
     # (d) device: a transmission ending d cycles before the next received packet (shared CRC unit)
     if device:
@@ -430,7 +430,7 @@ def _rx_sweep_traces(rng, kind, quick, only=None):
                 st.tx_burst(txp, after=d)
                 st.packet(H.data_bytes(pids[d % 4], payload(d % 3)), gap_prob=0.3 if d % 2 else 0, info={"what": "tx-then-rx-sweep"})
                 st.gap()
-        st.idle(st.min_gap + 30)
+        st.idle(st.min_gap + 110)
         out.append(st)
     return out
 
@@ -465,10 +465,10 @@ def _rx_ignored_head_traces(rng, kind, quick):
                 st.packet(octets, gaps=gaps, tail=(idx + len(gaps)) % 2, info={"what": "ignored-head+data-tail"})
                 st.gap()
         if len(st.cycles) > 6000:
-            st.idle(st.min_gap + 30)
+            st.idle(st.min_gap + 110)
             out.append(st)
             st = RxStim(rng, mg + 1, device)
-    st.idle(st.min_gap + 30)
+    st.idle(st.min_gap + 110)
     out.append(st)
     # every gap pattern of the shortest ones: head + ZLP data packet (4 bytes), head + pad + ZLP (5 bytes)
     st = RxStim(rng, mg + 1, device)
@@ -478,7 +478,7 @@ def _rx_ignored_head_traces(rng, kind, quick):
             for mask in range(1 << len(octets)):
                 st.packet(octets, gaps=[(mask >> k) & 1 for k in range(len(octets))], info={"what": "ignored-head+zlp-gapmask"})
                 st.gap()
-    st.idle(st.min_gap + 30)
+    st.idle(st.min_gap + 110)
     out.append(st)
     return out
 
@@ -552,7 +552,7 @@ def check_C02(rep):
     rep.assume("rx_active stays low between packets for at least the inter-packet delay the receiver waits for before "
                "ready_for_response (12 cycles standalone FS@60MHz, 5 in the 12 MHz FS device)")
     rep.assume("packet_complete/crc_mismatch may fire in any of the 3 cycles after rx_active fell; ready_for_response within "
-               "24 cycles of packet_complete unless a new packet starts first")
+               "100 cycles of packet_complete (the low-speed inter-packet delay is 80) unless a new packet starts first")
     rep.assume("for a packet whose PID is not a valid DATAx PID the receiver may or may not stream the middle bytes "
                "(the statement is ambiguous); it must never raise a strobe for it")
 
@@ -563,12 +563,13 @@ def check_C02(rep):
         runs = [("MCSpec", TlaSet([0xC3, 0x4B, 0xD2, 0x43, 0x00, 0x81]), 5, 1), ("MCSpec", TlaSet([0xC3, 0xD2, 0x00]), 4, 2),
                 ("MCSpecByBranch", TlaSet([0xC3, 0x00]), 4, 2)]
     for spec, base, maxlen, maxpk in runs:
-        b = {"Spec": spec, "BaseBytes": base, "MaxLen": maxlen, "MaxPkts": maxpk, "MaxResets": 1, "StrobeWin": 2, "RfrWin": 3,
-             "MinGap": 3}
+        b = {"Spec": spec, "BaseBytes": base, "MaxLen": maxlen, "MaxPkts": maxpk,
+             "MaxResets": 1 if spec == "MCSpecByBranch" else 0, "StrobeWin": 2, "RfrWin": 3, "MinGap": 3}
         # with <= 1 payload byte every allowed prefix has an allowed continuation (deadlock check = the Ref is
         # implementable); with more, a receiver that lags too far behind has none -- intended, so no deadlock check
         cfg = tlc.render_cfg(_cfg("MCDataRx.cfg.tmpl"), dict(b, Deadlock="TRUE" if maxlen <= 4 else "FALSE"))
-        res = tlc.model_check(SPEC_DIR, "MCDataRx", cfg, workers=8, timeout=1500)
+        res = tlc.model_check(SPEC_DIR, "MCDataRx", cfg, workers=8, timeout=1500,
+                              allow_uncovered=() if b["MaxResets"] else ("DomainReset",))
         rep.add_mc("MCDataRx %s bytes=%s+CRC-correct MaxLen=%d MaxPkts=%d" % (spec, sorted(base), maxlen, maxpk), res,
                    {k: (sorted(v) if isinstance(v, TlaSet) else v) for k, v in b.items()})
 
@@ -586,7 +587,7 @@ def check_C02(rep):
     behs = tlc.simulate(SPEC_DIR, "MCDataRx", sim_cfg, num=25 if quick else 200, depth=160, seed=rep.seed, timeout=1200)
     for b in behs:
         cyc = [dict(st["in"]) for _, st in b[1:]]
-        cyc += [{"active": False, "valid": False, "data": 0}] * 30
+        cyc += [{"active": False, "valid": False, "data": 0}] * 110
         for kind in kinds:
             jobs.append((kind, cyc, "tlc-simulate", None))
     #    (B) code -> spec: packet soups beyond the model's bounds
@@ -643,11 +644,9 @@ def check_C02(rep):
         by_kind.setdefault(kind, []).append((trace, {"dut": kind, "origin": origin}))
 
     # 4. validate with TLC
-    for consts, sel in ((RX_TRACE_CONSTS, lambda k: k not in RX_LS_KINDS),
-                        (dict(RX_TRACE_CONSTS, RfrWin=100), lambda k: k in RX_LS_KINDS)):
-        cfg = tlc.render_cfg(_cfg("DataRxTrace.cfg.tmpl"), consts)
-        validate_group(rep, SPEC_DIR, "DataRxTrace", cfg, [it for k, items in by_kind.items() if sel(k) for it in items],
-                       classify=classify_rx, what_prefix="USBDataPacketReceiver ", chunk=1000)
+    cfg = tlc.render_cfg(_cfg("DataRxTrace.cfg.tmpl"), RX_TRACE_CONSTS)
+    validate_group(rep, SPEC_DIR, "DataRxTrace", cfg, [it for items in by_kind.values() for it in items],
+                   classify=classify_rx, what_prefix="USBDataPacketReceiver ", chunk=1000)
     for kind, items in by_kind.items():
         tr = items[-1][0]
         k = next((j for j, r in enumerate(tr) if r["cp"] or r["mm"]), 0)
@@ -667,9 +666,11 @@ class TxBench:
 
     A script is a list of requests {"pid", "payload" ([] = ZLP request), "idle" (cycles before the request),
     "junk" (drive random first/last/payload/pid while valid is low), "rx" (optional bytes received on the UTMI
-    receive side during the idle time; device only)} plus a tx_ready bit source `rdy(cycle, wire_pos) -> 0/1`.
+    receive side during the idle time; device only), "pid_change" (drive random data_pid values once the PID byte
+    has been accepted), "reset_idle" / "reset_wait" (pulse the domain reset in that cycle of the idle time / of the
+    wait for the packet to leave)} plus a tx_ready bit source `rdy(cycle, wire_pos) -> 0/1`.
     The producer obeys USBInStreamInterface: holds a byte until valid & ready, keeps valid high from first to
-    last, keeps data_pid stable during the packet, and requests again only after tx_valid has fallen.
+    last, keeps data_pid stable until the PID byte has left, and requests again only after tx_valid has fallen.
     """
 
     def __init__(self, kind):
@@ -695,7 +696,8 @@ class TxBench:
             self.static = [(dev.connect, 1), (dev.full_speed_only, 1), (u.line_state, 1)]
             self.rx = (u.rx_active, u.rx_valid, u.rx_data)
             period = 1 / 12e6
-        self.sim = Simulator(dut)
+        top, self.rst = with_domain(dut)
+        self.sim = Simulator(top)
         self.sim.add_clock(period, domain="usb")
         self._first = True
         self._job = None
@@ -711,9 +713,14 @@ class TxBench:
         cyc = 0
         wire_pos = 0            # bytes accepted in the current burst (for position-specific stalls)
 
-        async def cycle(sv, sf, sl, sp, pid, rx=None):
+        pidchg = [False]        # drive a different data_pid once the PID byte has been accepted
+
+        async def cycle(sv, sf, sl, sp, pid, rx=None, rst=0):
             nonlocal cyc, wire_pos
             r = int(bool(rdy(cyc, wire_pos)))
+            if pidchg[0] and wire_pos >= 1:
+                pid = rng.randrange(4)
+            ctx.set(self.rst, rst)
             for k, v in (("sv", sv), ("sf", sf), ("sl", sl), ("sp", sp), ("pid", pid), ("rdy", r)):
                 ctx.set(s[k], v)
             if self.rx is not None:
@@ -722,8 +729,8 @@ class TxBench:
                 ctx.set(self.rx[1], v)
                 ctx.set(self.rx[2], d)
             sr, tv, td = ctx.get(s["sr"]), ctx.get(s["tv"]), ctx.get(s["td"])
-            rec.append({"sv": bool(sv), "sf": bool(sf), "sl": bool(sl), "sp": sp, "pid": pid, "rdy": bool(r),
-                        "sr": bool(sr), "tv": bool(tv), "td": td})
+            rec.append({"rst": bool(rst), "sv": bool(sv), "sf": bool(sf), "sl": bool(sl), "sp": sp, "pid": pid,
+                        "rdy": bool(r), "sr": bool(sr), "tv": bool(tv), "td": td})
             if tv and r:
                 wire_pos += 1
             if not tv:
@@ -743,8 +750,11 @@ class TxBench:
             if self.rx is not None and rq.get("rx"):
                 rxq = [(1, 0, 0)] + [(1, 1, b) for b in rq["rx"]] + [(0, 0, 0)] * (1 + rq.get("rx_gap", 5))
             n_idle = max(rq.get("idle", 1), len(rxq))
+            pidchg[0] = False
             for k in range(n_idle):
-                await cycle(*junk(rq.get("junk")), rx=rxq[k] if k < len(rxq) else None)
+                await cycle(*junk(rq.get("junk")), rx=rxq[k] if k < len(rxq) else None,
+                            rst=int(k == rq.get("reset_idle", -1)))
+            pidchg[0] = bool(rq.get("pid_change"))
             pid = rq["pid"]
             payload = rq["payload"]
             if not payload:
@@ -765,7 +775,11 @@ class TxBench:
                         if guard > 60:          # the DUT is stuck; the specification will say so
                             break
             # wait for the packet to leave (tx_valid seen high, then low), data_pid held
-            for _ in range(80):
+            for w in range(80):
+                if w == rq.get("reset_wait", -1):
+                    # domain reset while the rest of the packet (CRC bytes) is on its way: the packet is cut short
+                    await cycle(0, 0, 0, 0, pid, rst=1)
+                    break
                 sr, tv = await cycle(0, 0, 0, 0, pid)
                 if tv:
                     seen_tv = True
@@ -862,18 +876,22 @@ def check_C03(rep):
                 "(DUT, payload length<=12, data_pid, stall pattern class)")
     rep.assume("USBInStreamInterface producer: a byte is held until valid & ready, valid stays high from first to last, "
                "a ZLP request is a one-cycle pulse of valid & last without first")
-    rep.assume("data_pid is stable while a packet is in progress; a new request is made only after tx_valid has fallen")
+    rep.assume("data_pid is stable from the request until the PID byte was accepted (it is changed right after in half of "
+               "the requests); a new request is made only after tx_valid has fallen")
+    rep.assume("a domain reset (only while no byte is on offer) cuts the packet in progress short; afterwards the generator "
+               "must serve requests like a fresh one")
     rep.assume("the generator may take up to 4 tx_ready cycles without sending a byte before starting / moving on (latency free)")
     rep.assume("tx_data is only constrained in cycles where tx_valid and tx_ready are both high")
 
     # 1. exhaustive exploration of the specification
-    runs = [({"Data": TlaSet([0, 0x81]), "Pids": TlaSet([2]), "MaxLen": 3, "MaxReq": 2, "MaxStall": 1, "ProgWin": 2})]
+    runs = [({"Data": TlaSet([0, 0x81]), "Pids": TlaSet([2]), "MaxLen": 3, "MaxReq": 2, "MaxStall": 1, "MaxResets": 1, "ProgWin": 2})]
     if not quick:
-        runs = [{"Data": TlaSet([0, 1, 0x80, 0xFF]), "Pids": TlaSet([0, 3]), "MaxLen": 3, "MaxReq": 1, "MaxStall": 2, "ProgWin": 2},
-                {"Data": TlaSet([0, 0x81]), "Pids": TlaSet([0, 1, 2, 3]), "MaxLen": 4, "MaxReq": 2, "MaxStall": 1, "ProgWin": 2}]
+        runs = [{"Data": TlaSet([0, 1, 0x80, 0xFF]), "Pids": TlaSet([0, 3]), "MaxLen": 3, "MaxReq": 1, "MaxStall": 2, "MaxResets": 1, "ProgWin": 2},
+                {"Data": TlaSet([0, 0x81]), "Pids": TlaSet([0, 1, 2, 3]), "MaxLen": 4, "MaxReq": 2, "MaxStall": 1, "MaxResets": 0, "ProgWin": 2}]
     for b in runs:
         cfg = tlc.render_cfg(_cfg("MCDataTx.cfg.tmpl"), b)
-        res = tlc.model_check(SPEC_DIR, "MCDataTx", cfg, workers=8, timeout=1500)
+        res = tlc.model_check(SPEC_DIR, "MCDataTx", cfg, workers=8, timeout=1500,
+                              allow_uncovered=() if b["MaxResets"] else ("DomainReset",))
         rep.add_mc("MCDataTx " + " ".join("%s=%s" % (k, sorted(v) if isinstance(v, TlaSet) else v) for k, v in b.items()),
                    res, {k: (sorted(v) if isinstance(v, TlaSet) else v) for k, v in b.items()})
 
@@ -884,7 +902,7 @@ def check_C03(rep):
     #    (A) spec -> code: TLC-simulated request / tx_ready schedules
     sim_cfg = tlc.render_cfg(_cfg("MCDataTx_sim.cfg.tmpl"),
                              {"Data": TlaSet([0, 1, 0x80, 0xFF, 0x5A]), "Pids": TlaSet([0, 1, 2, 3]), "MaxLen": 6,
-                              "MaxReq": 6, "MaxStall": 3, "ProgWin": 2})
+                              "MaxReq": 6, "MaxStall": 3, "MaxResets": 0, "ProgWin": 2})
     behs = tlc.simulate(SPEC_DIR, "MCDataTx", sim_cfg, num=30 if quick else 300, depth=120, seed=rep.seed, timeout=1200)
     for b in behs:
         script, bits = _tx_script_from_behaviour(b)
@@ -905,7 +923,7 @@ def check_C03(rep):
                     if rng.random() < 0.05:
                         n = rng.choice([31, 32, 63, 64, 65])
                     rq = {"pid": rng.randrange(4), "payload": rnd_payload(n), "idle": rng.choice([1, 1, 2, 5]),
-                          "junk": rng.random() < 0.5}
+                          "junk": rng.random() < 0.5, "pid_change": rng.random() < 0.5}
                     if kind == "device" and rng.random() < 0.3:
                         rq["rx"] = _host().data_bytes("DATA0", rnd_payload(rng.randrange(4)))
                     script.append(rq)
@@ -941,6 +959,21 @@ def check_C03(rep):
                 script.append({"pid": d % 4, "payload": rnd_payload(d % 3), "idle": 1, "junk": False,
                                "rx": _host().data_bytes("DATA1", rnd_payload(d % 4)), "rx_gap": d})
             jobs.append((kind, script, (lambda: _rdy_random(rng, 0.2, 2)), "rx-then-request-sweep", "light"))
+        # data_pid changed right after the PID byte left, for every pid and short lengths, with a stall on the PID byte
+        script = [{"pid": p_, "payload": rnd_payload(n), "idle": 1, "junk": False, "pid_change": True}
+                  for n in (0, 1, 2) for p_ in range(4)]
+        jobs.append((kind, script, (lambda: _rdy_random(rng, 0.0, 0)), "pid-change-after-pid-byte", "none"))
+        jobs.append((kind, script, (lambda: _rdy_at_position({0: 2, 1: 1})), "pid-change-after-pid-byte", "pos0"))
+        # a domain reset while idle (d cycles after the previous packet left) and while the CRC bytes are on their
+        # way; the following requests must be served like the first
+        script = []
+        for d in range(0, 6):
+            script += [{"pid": d % 4, "payload": rnd_payload(d % 3), "idle": 1, "junk": False},
+                       {"pid": (d + 1) % 4, "payload": rnd_payload((d + 1) % 3), "idle": d + 3, "junk": False, "reset_idle": d},
+                       {"pid": (d + 2) % 4, "payload": rnd_payload(1 + d % 2), "idle": 1, "junk": False, "reset_wait": d % 4},
+                       {"pid": d % 4, "payload": rnd_payload(d % 3), "idle": 2 + d % 2, "junk": False}]
+        jobs.append((kind, script, (lambda: _rdy_random(rng, 0.0, 0)), "domain-reset", "none"))
+        jobs.append((kind, script, (lambda: _rdy_random(rng, 0.4, 2)), "domain-reset", "light"))
         # sequences around ZLPs: ZLP then data, data then ZLP, two ZLPs
         for t in range(3 if quick else 12):
             script = []
@@ -981,15 +1014,18 @@ OB_IN_BOOL = ("iv", "inx", "ic", "ix")
 OB_OUT_BOOL = ("ov", "onx", "of", "ol", "oc", "ox")
 
 
-def make_ob_driver():
+def make_ob_driver(domain=None):
+    """domain=None: the constructor's default ("usb"); otherwise USBOutStreamBoundaryDetector(domain=<name>)."""
     use_repo()
     from luna.gateware.usb.stream import USBOutStreamBoundaryDetector
-    dut = USBOutStreamBoundaryDetector()
+    dut = USBOutStreamBoundaryDetector() if domain is None else USBOutStreamBoundaryDetector(domain=domain)
+    domain = domain or "usb"
+    top, rst = with_domain(dut, domain)
     ins = {"iv": dut.unprocessed_stream.valid, "inx": dut.unprocessed_stream.next, "ip": dut.unprocessed_stream.payload,
-           "ic": dut.complete_in, "ix": dut.invalid_in}
+           "ic": dut.complete_in, "ix": dut.invalid_in, "rst": rst}
     outs = {"ov": dut.processed_stream.valid, "onx": dut.processed_stream.next, "op": dut.processed_stream.payload,
             "of": dut.first, "ol": dut.last, "oc": dut.complete_out, "ox": dut.invalid_out}
-    return CycleDriver(dut, ins, outs, domain="usb", bool_outputs=OB_OUT_BOOL, bool_inputs=OB_IN_BOOL)
+    return CycleDriver(top, ins, outs, domain=domain, bool_outputs=OB_OUT_BOOL, bool_inputs=OB_IN_BOOL + ("rst",))
 
 
 def _ob_packet(rng, cycles, payload, gap_prob, lead, strobes, junk=True):
@@ -1144,6 +1180,23 @@ def _ob_sweep_traces(rng, quick):
     return out
 
 
+def _ob_reset_traces(rng):
+    """A domain reset d cycles after valid fell (d = 1 hits the cycle the last byte goes out, d = 2 the strobe cycle,
+    later ones the idle detector), followed by packets that must be handled like the first."""
+    cyc = [{"iv": 0, "inx": 0, "ip": 0, "ic": 0, "ix": 0} for _ in range(OB_CONSTS["MinGap"] + 1)]
+    meta = []
+    for d in range(1, 7):
+        for n in (1, 3):
+            _ob_packet_exact(cyc, [rng.randrange(256) for _ in range(n)], [0] * n, 0, d % 2, d + 2, [("fall", 0, "cx"[d % 2])])
+            cyc[len(cyc) - 2]["rst"] = 1                         # d cycles after the first low cycle
+            _ob_packet_exact(cyc, [rng.randrange(256) for _ in range(2)], [0, d % 2], 0, 0, OB_CONSTS["MinGap"] + 1,
+                             [("fall", 0, "c")])
+            _ob_packet_exact(cyc, [rng.randrange(256)], [0], 0, 0, OB_CONSTS["MinGap"] + 2, [])
+            meta.append((n, "reset%+d" % d))
+    cyc.extend({"iv": 0, "inx": 0, "ip": 0, "ic": 0, "ix": 0} for _ in range(10))
+    return cyc, meta
+
+
 def classify_ob(trace, matched, status, meta):
     k = matched if status != "ok" else matched + 1
     pattern = "other"
@@ -1169,17 +1222,19 @@ def check_C28(rep):
                "seen earlier in the packet or while the outputs are still being flushed may be (statement silent); "
                "strobes outside any packet must not be")
     rep.assume("the last byte may be output up to 3 cycles, the strobes up to 5 cycles after valid fell (latency free)")
+    rep.assume("a reset of the detector's clock domain (only while the raw stream is quiet) drops whatever was still owed; "
+               "afterwards the detector must behave like a fresh one")
 
     # 1. exhaustive exploration of the specification
-    runs = [({"Data": TlaSet([0, 1]), "MaxLen": 2, "MaxPkts": 1, "Strobes": TlaSet(["c", "x"]), "OutWin": 2, "StrobeWin": 3,
-              "MinGap": 4}, ()),
-            ({"Data": TlaSet([0, 1]), "MaxLen": 3, "MaxPkts": 2, "Strobes": TlaSet(["c"]), "OutWin": 2, "StrobeWin": 3,
-              "MinGap": 4}, ("InvalidOut",))]
+    runs = [({"Data": TlaSet([0, 1]), "MaxLen": 2, "MaxPkts": 1, "Strobes": TlaSet(["c", "x"]), "MaxResets": 1, "OutWin": 2,
+              "StrobeWin": 3, "MinGap": 4}, ()),
+            ({"Data": TlaSet([0, 1]), "MaxLen": 3, "MaxPkts": 2, "Strobes": TlaSet(["c"]), "MaxResets": 0, "OutWin": 2, "StrobeWin": 3,
+              "MinGap": 4}, ("InvalidOut", "DomainReset"))]
     if not quick:
-        runs = [({"Data": TlaSet([0, 1]), "MaxLen": 3, "MaxPkts": 2, "Strobes": TlaSet(["c", "x"]), "OutWin": 2, "StrobeWin": 3,
-                  "MinGap": 4}, ()),
-                ({"Data": TlaSet([0, 1, 2]), "MaxLen": 4, "MaxPkts": 1, "Strobes": TlaSet(["c"]), "OutWin": 3, "StrobeWin": 4,
-                  "MinGap": 5}, ("InvalidOut",))]
+        runs = [({"Data": TlaSet([0, 1]), "MaxLen": 3, "MaxPkts": 2, "Strobes": TlaSet(["c", "x"]), "MaxResets": 1, "OutWin": 2,
+                  "StrobeWin": 3, "MinGap": 4}, ()),
+                ({"Data": TlaSet([0, 1, 2]), "MaxLen": 4, "MaxPkts": 1, "Strobes": TlaSet(["c"]), "MaxResets": 0, "OutWin": 3, "StrobeWin": 4,
+                  "MinGap": 5}, ("InvalidOut", "DomainReset"))]
     for b, allow in runs:
         cfg = tlc.render_cfg(_cfg("MCOutBoundary.cfg.tmpl"), b)
         res = tlc.model_check(SPEC_DIR, "MCOutBoundary", cfg, workers=8, timeout=1500, allow_uncovered=allow)
@@ -1191,7 +1246,7 @@ def check_C28(rep):
     jobs = []
     sim_cfg = tlc.render_cfg(_cfg("MCOutBoundary_sim.cfg.tmpl"),
                              {"Data": TlaSet([0, 1, 0x80, 0xFF]), "MaxLen": 6, "MaxPkts": 5, "Strobes": TlaSet(["c", "x"]),
-                              "OutWin": OB_CONSTS["OutWin"], "StrobeWin": OB_CONSTS["StrobeWin"], "MinGap": OB_CONSTS["MinGap"]})
+                              "MaxResets": 0, "OutWin": OB_CONSTS["OutWin"], "StrobeWin": OB_CONSTS["StrobeWin"], "MinGap": OB_CONSTS["MinGap"]})
     behs = tlc.simulate(SPEC_DIR, "MCOutBoundary", sim_cfg, num=40 if quick else 400, depth=120, seed=rep.seed, timeout=1200)
     for b in behs:
         cyc = [{"iv": st["in"]["v"], "inx": st["in"]["n"], "ip": st["in"]["p"], "ic": st["in"]["c"], "ix": st["in"]["x"]}
@@ -1218,25 +1273,35 @@ def check_C28(rep):
 
     for cyc, meta in _ob_sweep_traces(rng, quick):
         jobs.append((cyc, "alignment-sweeps", meta))
+    cyc, meta = _ob_reset_traces(rng)
+    jobs.append((cyc, "domain-reset", meta))
 
-    # 3. run on the real module
-    drv = make_ob_driver()
+    # 3. run on the real module.  Constructor parameter: domain (default "usb"; any other name goes through a
+    #    DomainRenamer).  Quick: the default plus one other name (rotated by the seed) share the stimuli; thorough: every
+    #    stimulus on the default and on two other names.
+    others = ["sync", "fast", "usb_io"]
+    domains = [None, others[rep.seed % 3]] if quick else [None, "sync", "fast"]
+    drvs = {d: make_ob_driver(d) for d in domains}
     items = []
-    for cyc, origin, meta in jobs:
-        trace = drv.run(cyc)
-        rep.add_eval(len(trace))
-        if meta:
-            for m in meta:
-                rep.nontriv(("ob",) + tuple(m))
-        else:
-            rep.nontriv(("ob", "tlc", sum(1 for r in trace if r["ol"] and r["onx"]), sum(1 for r in trace if r["oc"] or r["ox"])))
-        items.append((trace, {"origin": origin}))
+    for n_job, (cyc, origin, meta) in enumerate(jobs):
+        for dom in domains:
+            if quick and dom is not None and not (n_job % 3 == 0 or origin == "domain-reset"):
+                continue
+            trace = drvs[dom].run(cyc)
+            rep.add_eval(len(trace))
+            items.append((trace, {"origin": origin, "domain": dom or "default(usb)"}))
+            rep.nontriv(("ob", "domain", dom or "usb", origin))
+            if not meta:
+                rep.nontriv(("ob", "tlc", sum(1 for r in trace if r["ol"] and r["onx"]),
+                             sum(1 for r in trace if r["oc"] or r["ox"])))
+        for m in (meta or []):
+            rep.nontriv(("ob",) + tuple(m))
 
     # 4. validate with TLC
     cfg = tlc.render_cfg(_cfg("OutBoundaryTrace.cfg.tmpl"), OB_CONSTS)
     validate_group(rep, SPEC_DIR, "OutBoundaryTrace", cfg, items, classify=classify_ob,
                    what_prefix="USBOutStreamBoundaryDetector ", chunk=1000)
-    tr = items[len(behs)][0]
+    tr = next(t for t, m in items if m["origin"] == "random")
     k = next((j for j, r in enumerate(tr) if r["iv"]), 0)
     rep.sample({"origin": "random", "cycles_from_first_packet": tr[k:k + 14]})
 
